@@ -164,6 +164,7 @@ fn worker(a: &[&str]) -> Result<(), String> {
     let workdir = PathBuf::from(workdir);
 
     let start = Instant::now();
+    oracle::install_first_panic_hook();
     let ctx = Arc::new(ExecCtx { st: Default::default(), want_samples });
     let sstats = Arc::new(Mutex::new(SchedStats::default()));
     let mut violations: Vec<Value> = Vec::new();
@@ -198,7 +199,7 @@ fn worker(a: &[&str]) -> Result<(), String> {
         let done = sstats.lock().unwrap().executions - before_exec;
         remaining = remaining.saturating_sub(done.max(1));
         if let Err(p) = res {
-            let msg = payload_text(&*p);
+            let msg = oracle::take_first_panic().unwrap_or_else(|| payload_text(&*p));
             let (oracle, harness) = classify(&msg);
             // Shuttle persists when the panic hook runs and once more when the execution is
             // torn down if unwinding took further scheduling steps (a guard dropped while
@@ -321,6 +322,7 @@ fn replay(file: &str) -> ExitCode {
             return ExitCode::from(2);
         }
     };
+    oracle::install_first_panic_hook();
     let ctx = Arc::new(ExecCtx { st: Default::default(), want_samples: 1 });
     let c2 = ctx.clone();
     let res = catch_unwind(AssertUnwindSafe(move || {
@@ -336,7 +338,7 @@ fn replay(file: &str) -> ExitCode {
             ExitCode::SUCCESS
         }
         Err(p) => {
-            let msg = payload_text(&*p);
+            let msg = oracle::take_first_panic().unwrap_or_else(|| payload_text(&*p));
             let (oracle, harness) = classify(&msg);
             if let Some((s, mon)) = &st.current {
                 println!("script: {}", s.describe());
@@ -530,9 +532,13 @@ fn check(tier: &str) -> Result<ExitCode, String> {
     // ---- violation classes: keep the shortest schedule of each
     let mut classes: BTreeMap<String, Value> = BTreeMap::new();
     let mut class_counts: BTreeMap<String, u64> = BTreeMap::new();
+    let mut class_earliest: BTreeMap<String, u64> = BTreeMap::new();
     for v in all_violations {
         let key = format!("{} {}", v["oracle"].as_str().unwrap_or(""), v["site"].as_str().unwrap_or("")).trim().to_string();
         *class_counts.entry(key.clone()).or_insert(0) += 1;
+        let at = v["schedules_of_this_worker_until_detection"].as_u64().unwrap_or(u64::MAX);
+        let e = class_earliest.entry(key.clone()).or_insert(u64::MAX);
+        *e = (*e).min(at);
         let better = match classes.get(&key) {
             None => true,
             Some(old) => v["schedule_bytes"].as_u64() < old["schedule_bytes"].as_u64(),
@@ -551,6 +557,7 @@ fn check(tier: &str) -> Result<ExitCode, String> {
         let msg = v["message"].as_str().unwrap_or("").to_string();
         let file = v["replay"].as_str().unwrap_or("").to_string();
         v["found_by_workers"] = json!(class_counts[key]);
+        v["earliest_detection_in_any_worker_after_schedules"] = json!(class_earliest[key]);
         if let Some(s) = v["script"].as_object() {
             if let (Some(p), true) = (s.get("ports").and_then(|p| p.as_u64()), true) {
                 let mut names = serde_json::Map::new();
